@@ -378,19 +378,25 @@ def xkey_layout(ctx):
     blks = [n for n in ast.walk(fn2) if isinstance(n, ast.If) and "'hdkey_private'" in unparse(n.test) and "'hdkey_public'" in unparse(n.test)]
     if len(blks) != 1:
         ctx.undecided('HDKey.__init__: extended key branch not found')
-    it = Interp(ctx.repo, 'keys', hooks=dict(LAYOUT_HOOKS), self_cls='keys:HDKey')
-    st = State(env={'self': S(SELF), 'import_key': S(('var', 'wif'), 'str'), 'is_private': True})
-    it.frames.append([])
-    end = it.exec_block(blks[0].body, st)
-    if end is None:
-        ctx.undecided('HDKey.__init__: extended key branch always raises')
-    raises = [show(term(e.value)) for e in it.frames[-1] if e.kind == 'raise']
-    ctx.require(any('hecksum' in r for r in raises), 'keys:HDKey.__init__', 'length / checksum of the extended key is not verified', blks[0])
     guard = [norm(s.test) for s in blks[0].body if isinstance(s, ast.If) and any(isinstance(x, ast.Raise) for x in s.body)]
     ctx.require(any('82' in g for g in guard), 'keys:HDKey.__init__', 'the extended key branch does not require 82 bytes', blks[0])
-    fields = {k: term(end.env[k]) for k in ('key', 'depth', 'parent_fingerprint', 'child_index', 'chain') if k in end.env}
     for p, lay in lays.items():
-        _xkey_check_reader(ctx, 'keys:HDKey.__init__', fields, term(end.env.get('is_private')), lay, p, B, blks[0])
+        # `kf` is what get_key_format said about the version bytes of this layout (the branch may or may not consult it)
+        it = Interp(ctx.repo, 'keys', hooks=dict(LAYOUT_HOOKS), self_cls='keys:HDKey')
+        st = State(env={'self': S(SELF), 'import_key': S(('var', 'wif'), 'str'), 'is_private': True,
+                        'kf': {'format': 'hdkey_private' if p else 'hdkey_public', 'is_private': p, 'networks': ['bitcoin'], 'script_types': [], 'witness_types': ['segwit'], 'multisig': [False]}})
+        it.frames.append([])
+        try:
+            end = it.exec_block(blks[0].body, st)
+        except AnalysisError as e:
+            ctx.undecided('HDKey.__init__: extended key branch not evaluable: %s' % str(e)[:100])
+        if end is None:
+            ctx.undecided('HDKey.__init__: extended key branch always raises')
+        raises = [show(term(e.value)) for e in it.frames[-1] if e.kind == 'raise']
+        ctx.require(any('hecksum' in r for r in raises), 'keys:HDKey.__init__', 'length / checksum of the extended key is not verified', blks[0])
+        fields = {k: (term(end.env[k]) if isinstance(end.env[k], S) else end.env[k]) for k in ('key', 'depth', 'parent_fingerprint', 'child_index', 'chain') if k in end.env}
+        ip = end.env.get('is_private')
+        _xkey_check_reader(ctx, 'keys:HDKey.__init__', fields, term(ip) if isinstance(ip, S) else ip, lay, p, B, blks[0])
 
 
 # ---------------------------------------------------------------------------------------------- prefix tables
@@ -1013,3 +1019,53 @@ def supplied_options(ctx):
                 'with a Network object as network argument the constructor builds Network(%s)' % ([show(x) if isinstance(x, tuple) else x for x in seen][:1]), fn.body[top[0]],
                 "HDKey(xprv, network=Network('bitcoin')).network.name is a Network object: as_json() raises TypeError")
     ctx.floor(n, 4, 'supplied-option scenarios')
+
+
+@PROP.obligation('C12.public-export-prefix', canaries=[
+    mut.Canary('a public export with an explicit prefix serialises the private bytes', 'keys', lambda tree: _rkey_only_without_prefix(tree)),
+])
+def public_export_prefix(ctx):
+    """"... extended private or public key with every network and witness-type prefix": HDKey.wif(is_private=False, prefix=P) and
+    wif_public(prefix=P) are the documented way to export under any version prefix. Both are evaluated on a private key with an explicit
+    prefix: the serialised payload contains the compressed PUBLIC key and no private attribute - with the private bytes under a
+    public prefix the string is an 81-byte payload that no importer reads back as the same key (and it discloses the secret)."""
+    from . import c16 as _c16
+    T = _c16.compute_taint(ctx)
+    PUB = ('attr', SELF, 'public_compressed_byte')
+    n = 0
+    for meth, args in (('wif', {'is_private': False, 'prefix': b'\x04\x88\xb2\x1e'}), ('wif_public', {'prefix': b'\x04\x88\xb2\x1e'}), ('wif', {'is_private': False, 'prefix': '04b24746'}),
+                       ('wif', {'is_private': False}), ('wif_public', {})):
+        try:
+            q, fn, outs = _c16._eval_view(ctx, T, 'keys:HDKey', meth, args)
+        except AnalysisError as e:
+            ctx.undecided('HDKey.%s(%s) not evaluable: %s' % (meth, args, str(e)[:80]))
+        n += 1
+        for t, node in outs:
+            has_pub = PUB in list(subterms(('w', t)))
+            hit = T.contains(t, 'keys:HDKey')
+            ctx.saw('HDKey.%s(%s): public key in the payload: %s, private material: %s' % (meth, ', '.join('%s=%r' % kv for kv in args.items()), has_pub, show(hit)[:40] if hit else 'none'))
+            ctx.require(has_pub and not hit, q, 'HDKey.%s(%s) serialises %s' % (meth, ', '.join('%s=%r' % kv for kv in args.items()), ('the private ' + show(hit)[:40]) if hit else 'no public key'), node or fn,
+                        "k.wif_public(prefix='0488B21E') on a private key is not the xpub: it carries the 32 secret bytes and cannot be imported")
+    ctx.floor(n, 5, 'public exports')
+
+
+def _rkey_only_without_prefix(tree):
+    """move `rkey = self.public_compressed_byte` of HDKey.wif under `if not prefix:`"""
+    for cls in tree.body:
+        if isinstance(cls, ast.ClassDef) and cls.name == 'HDKey':
+            for f in cls.body:
+                if isinstance(f, ast.FunctionDef) and f.name == 'wif':
+                    for i_ in ast.walk(f):
+                        if isinstance(i_, ast.If) and norm(i_.test) == 'not is_private' and any('rkey' in norm(x) for x in i_.body):
+                            for blk in ast.walk(f):
+                                for field in ('body', 'orelse'):
+                                    stmts = getattr(blk, field, None)
+                                    if isinstance(stmts, list) and i_ in stmts:
+                                        k = stmts.index(i_)
+                                        tgt = [s_ for s_ in stmts[:k] if isinstance(s_, ast.If) and norm(s_.test) == 'not prefix']
+                                        if not tgt:
+                                            return False
+                                        tgt[-1].body.extend(i_.body)
+                                        stmts.remove(i_)
+                                        return True
+    return False
